@@ -56,10 +56,10 @@ def entries():
                pre=N3, timeout=150))
     L.append(e("list.head.len", "a: int, k: int, " + P3, '("list_e", [%s, E], (Nil, Nil, k))' % INT_A, V3, W3, pre=N3))
     L.append(e("list.typed.any.mixed", "n: int, vb: bool, vi: int, vb2: bool, m: int, wb: bool, wi: int",
-               '("list_t", ("any", None), NOLEN)', "mklist(n, vb, vi, vb2)", "mklist(m, wb, wi)", pre=["0 <= n <= 3", "0 <= m <= 2", "-2 <= vi <= 2"]))
+               '("list_t", ("any", None), NOLEN)', "mklist(n, vb, vi, vb2)", "mklist(m, wb, wi)", pre=["0 <= n <= 3", "0 <= m <= 2", "-2 <= vi <= 2"], covers=("subst",)))
     L.append(e("list.typed.anyof.mixed", "n: int, vb: bool, vi: int, m: int, wi: int",
                '("list_t", ("any", [("bool", Nil), ("int", Nil, Nil, Nil)]), NOLEN)', "mklist(n, vb, vi)", "mklist(m, wi, wi)",
-               pre=["0 <= n <= 2", "0 <= m <= 2", "-2 <= vi <= 2"]))
+               pre=["0 <= n <= 2", "0 <= m <= 2", "-2 <= vi <= 2"], covers=("subst",)))
     L.append(e("list.zoo", "i: int, n: int, v0: int, w: int", '("list", None, NOLEN)', "mklist(n, v0, pick(ZOO_UNCONVERTIBLE, i))", "[w]",
                pre=["0 <= n <= 2"]))
     L.append(e("list.head.zoo", "a: int, i: int, v0: int, w: int", '("list_e", [%s, E], NOLEN)' % INT_A,
